@@ -14,7 +14,7 @@ func init() {
 		Title: "Store writes are atomic under concurrency, failed writes and crashes",
 		Decides: "in the file-system backend's write path the file that is created and written is never the file that readers open: the name given to the creating call is " +
 			"not the key's file name, the data is written, synced and closed, and only then renamed onto the key's file name; the read path opens the key's file once and reads it fully.",
-		NotDecided: "linearisability of concurrent operations, rename/fsync guarantees of the file system, directory fsync, behaviour under SIGKILL — schedules and OS behaviour.",
+		NotDecided: "linearisability of concurrent operations in general (decided: the write protocol, per-call unique temporary names shared by the process, and that an operation which reported its timeout publishes nothing afterwards); rename/fsync guarantees of the file system, directory fsync, behaviour under SIGKILL.",
 		Rules: []Rule{
 			{ID: "C15.1", Desc: "write protocol: temp, write, sync, close, rename", Run: ruleC15_1, MinSites: 1},
 			{ID: "C15.2", Desc: "read path: one open, one full read", Run: ruleC15_2, MinSites: 1},
